@@ -119,7 +119,7 @@ def run(ctx):
                 "with two cache layouts; non-trivial = a successful write and a non-empty final store; distinct by (history, world)")
     ctx.assumptions += ["bodies outside the abstract grammar (VSUBSCRIBED, VLIST, several components per UID, missing UIDs) are not generated",
                         "SHA-256 ETags modelled as injective in the content"]
-    ctx.prove()
+    ctx.prove(extra_targets=x_hcheck.EXTRA)
     state = {}
     x_hcheck.run_histories(ctx, ctx.n(160, 5000), storage_types=("multifilesystem", "multifilesystem_nolock"), layouts=LAYOUTS,
                            monitor=lambda w, h, o, r: frame_monitor(ctx, state, w, h, o, r), tag="c01")
